@@ -94,16 +94,14 @@ func C03(c *ev.Ctx) {
 		return
 	}
 	progs := goosegen.ConcTemplates(uint64(c.Seed))
-	if c.Quick() {
-		// quick tier: a rotating subset of the larger templates plus all the small ones
-		var sel []goosegen.ConcProgram
-		for i, p := range progs {
-			big := p.Key == "cond-broadcast-two-waiters" || p.Key == "nested-locks" || p.Key == "loop-spawn-copies" || p.Key == "mutex-counter-wg"
-			if !big || (i+int(c.Seed))%4 == 0 {
-				sel = append(sel, p)
+	if !c.Quick() {
+		// thorough: two more parameter instantiations of every template (other constants / iteration counts)
+		for extra := uint64(1); extra <= 2; extra++ {
+			for _, p := range goosegen.ConcTemplates(uint64(c.Seed)*31 + extra) {
+				p.Key = fmt.Sprintf("%s#%d", p.Key, extra)
+				progs = append(progs, p)
 			}
 		}
-		progs = sel
 	}
 	m, err := newGenModule(c, "mod-c03")
 	if err != nil {
@@ -135,7 +133,7 @@ func C03(c *ev.Ctx) {
 		text := gout.files[pkg]
 		if len(errs[pkg]) > 0 || !strings.Contains(text, "Definition entry:") {
 			outcomesEv[p.Key] = "rejected by goose"
-			if p.Key != "go-with-args" {
+			if !strings.HasPrefix(p.Key, "go-with-args") {
 				c.Violation("c03.rejected."+p.Key, fmt.Sprintf("goose rejects the concurrent subset program %s:\n%s", p.Key, extractErrors(gout.stderr, pkg)), map[string]string{"gen.go": p.Source})
 			}
 			continue
